@@ -4,8 +4,9 @@
 
    Every theorem quantifies over ALL label sequences `ls` (clock advances of any size, single
    micro-steps of any timer task, iterations of the target's loop, aborts, stop / kill / drain
-   requests and timer creations in any order) and every start time; `run ls (init t0)` is the
-   state reached.  tokio's timer contract (sleep with deadline D complete at a poll iff
+   requests and timer creations in any order) and every start time; `run ls (init t0 pk)` is the
+   state reached; `pk = true` starts with the target still inside pre_start (status Starting:
+   active and accepting, its loop not running until `TgtStart`).  tokio's timer contract (sleep with deadline D complete at a poll iff
    ceil_ms D <= floor_ms now; interval deadlines t0 + k*p, Burst) is the MODEL of sleep/interval
    and is calibrated against the real runtime on every run of the check, not verified. *)
 From Coq Require Import List NArith Bool.
@@ -16,8 +17,8 @@ Local Open Scope N_scope.
 (* (1) send_after: enqueued at most once (the global sequence of accepted timer messages has
    no duplicates), numbered 1, never before creation + period; handled at most once, never
    before; the handle reports Ok exactly when the message was enqueued *)
-Theorem C12_after_once_not_early : forall ls t0 i tm,
-  let s := run ls (init t0) in
+Theorem C12_after_once_not_early : forall pk ls t0 i tm,
+  let s := run ls (init t0 pk) in
   nth_error (timers s) i = Some tm -> k_kind tm = KAfter ->
   NoDup (pairs (effs s)) /\ NoDup (log_pairs (g_log (tgt s)))
   /\ (forall e k, In e (effs s) -> e_tid e = i -> e_what e = ESent k ->
@@ -29,8 +30,8 @@ Proof. exact after_once_not_early. Qed.
 (* (1b) ... and exactly once when it matters: polling the task once its wheel deadline has
    passed delivers the message iff the target accepts at that moment, else the handle is Err
    and the target is untouched *)
-Theorem C12_after_fires : forall ls t0 i tm D,
-  let s := run ls (init t0) in
+Theorem C12_after_fires : forall pk ls t0 i tm D,
+  let s := run ls (init t0 pk) in
   nth_error (timers s) i = Some tm -> k_kind tm = KAfter -> k_pc tm = PWait D ->
   ceil_ms D <= now s ->
   let s' := step s (Poll i) in
@@ -43,8 +44,8 @@ Proof. exact after_fires. Qed.
 (* (2) abort: whatever happens after `Abort i`, timer i's record and the list of its effects
    on the target (messages, send failures, stop, kill) never change again; an unfinished task
    ends as cancelled *)
-Theorem C12_abort_prevents : forall ls1 ls2 t0 i,
-  let s1 := run ls1 (init t0) in
+Theorem C12_abort_prevents : forall pk ls1 ls2 t0 i,
+  let s1 := run ls1 (init t0 pk) in
   (i < length (timers s1))%nat ->
   let s2 := step s1 (Abort i) in
   let s3 := run ls2 s2 in
@@ -57,8 +58,8 @@ Proof. exact abort_prevents. Qed.
 (* (3) dead target: once the target refuses messages (Draining, Stopping, Stopped) no timer
    message is ever accepted again, and a send_after that had not delivered reports Err
    through its handle whenever it returns *)
-Theorem C12_dead_target_err : forall ls1 ls2 t0,
-  let s1 := run ls1 (init t0) in
+Theorem C12_dead_target_err : forall pk ls1 ls2 t0,
+  let s1 := run ls1 (init t0 pk) in
   accepts (g_status (tgt s1)) = false ->
   let s2 := run ls2 s1 in
   pairs (effs s2) = pairs (effs s1)
@@ -71,8 +72,8 @@ Proof. exact dead_target_err. Qed.
    deadline ceil_ms (t0 + k*p) >= born + k*p (t0 = first poll of the task): the deadline is
    k periods after t0 regardless of how late earlier ticks were served (no drift); every
    number 1..k_sent is enqueued, none twice *)
-Theorem C12_interval_kth : forall ls t0 i tm,
-  let s := run ls (init t0) in
+Theorem C12_interval_kth : forall pk ls t0 i tm,
+  let s := run ls (init t0 pk) in
   nth_error (timers s) i = Some tm -> k_kind tm = KInterval ->
   (forall e k, In e (effs s) -> e_tid e = i -> e_what e = ESent k ->
      1 <= k /\ k <= k_sent tm /\ ceil_ms (k_t0 tm + k * k_dur tm) <= e_time e
@@ -87,9 +88,9 @@ Proof. exact interval_kth. Qed.
    moves before a new task's first poll) every timer message — k-th tick of an interval, the
    single message of a send_after — is enqueued at EXACTLY ceil_ms (born + k*p); with a
    millisecond-aligned creation time and period that is born + k*p itself *)
-Theorem C12_interval_kth_exact : forall ls t0 e k,
-  prompt ls (init t0) ->
-  let s := run ls (init t0) in
+Theorem C12_interval_kth_exact : forall pk ls t0 e k,
+  prompt ls (init t0 pk) ->
+  let s := run ls (init t0 pk) in
   In e (effs s) -> e_what e = ESent k ->
   exists tm, nth_error (timers s) (e_tid e) = Some tm
              /\ e_time e = ceil_ms (k_born tm + k * k_dur tm)
@@ -98,8 +99,8 @@ Proof. exact interval_kth_exact. Qed.
 
 (* (5) an interval task is finished at the latest when it is blocked at a time that is one
    (wheel-rounded) period after the target left {Starting, Running, Upgrading} *)
-Theorem C12_interval_ends : forall ls t0 i tm tl,
-  let s := run ls (init t0) in
+Theorem C12_interval_ends : forall pk ls t0 i tm tl,
+  let s := run ls (init t0 pk) in
   nth_error (timers s) i = Some tm -> k_kind tm = KInterval ->
   g_left (tgt s) = Some tl ->
   timer_enabled (now s) tm = false ->
@@ -109,8 +110,8 @@ Theorem C12_interval_ends : forall ls t0 i tm tl,
 Proof. exact interval_ends. Qed.
 
 (* g_left really is the moment the target left the active states *)
-Theorem C12_left_spec : forall ls t0,
-  let s := run ls (init t0) in
+Theorem C12_left_spec : forall pk ls t0,
+  let s := run ls (init t0 pk) in
   (g_left (tgt s) = None <-> is_active (g_status (tgt s)) = true)
   /\ (forall tl, g_left (tgt s) = Some tl -> tl <= now s).
 Proof. exact left_spec. Qed.
@@ -118,16 +119,16 @@ Proof. exact left_spec. Qed.
 (* (6) exit_after / kill_after: an exit caused by timer i happens no earlier than the period
    after its creation and carries the documented reason "Exit after {ms}ms" / "killed";
    the stop / kill requests themselves are never issued early *)
-Theorem C12_exit_kill_after : forall ls t0 r i t,
-  let s := run ls (init t0) in
+Theorem C12_exit_kill_after : forall pk ls t0 r i t,
+  let s := run ls (init t0 pk) in
   g_exit (tgt s) = Some (r, Some i, t) ->
   exists tm, nth_error (timers s) i = Some tm
     /\ k_born tm + k_dur tm <= t
     /\ ((k_kind tm = KExit /\ r = RExitAfter (k_dur tm / ms)) \/ (k_kind tm = KKill /\ r = RKilled)).
 Proof. exact exit_kill_after. Qed.
 
-Theorem C12_exit_kill_effects : forall ls t0 e,
-  let s := run ls (init t0) in
+Theorem C12_exit_kill_effects : forall pk ls t0 e,
+  let s := run ls (init t0 pk) in
   In e (effs s) -> (e_what e = EStop \/ e_what e = EKill) ->
   exists tm, nth_error (timers s) (e_tid e) = Some tm
     /\ k_born tm + k_dur tm <= e_time e
@@ -136,18 +137,18 @@ Proof. exact exit_kill_effects. Qed.
 
 (* (7) the deterministic driver used by the correspondence check only performs model steps:
    every scenario the harness runs is one of the label sequences quantified over above *)
-Theorem C12_exec_is_run : forall ops,
-  d_s (fst (exec ops)) = run (rev (d_ls (fst (exec ops)))) (init 0).
+Theorem C12_exec_is_run : forall pk ops,
+  d_s (fst (exec pk ops)) = run (rev (d_ls (fst (exec pk ops)))) (init 0 pk).
 Proof. exact exec_is_run. Qed.
 
-(* OPEN: C12_oracle_sound : forall ops, check_C12 ops (observe ops) = true.
+(* OPEN: C12_oracle_sound : forall pk ops, check_C12 pk ops (observe pk ops) = true.
    Not proved.  The oracle is evaluated on the implementation's observations only; that it
    accepts the model's own observation is checked by vm_compute on every generated scenario
    of every run (lib/c12.py, `model_oracle`), not as a theorem. *)
 
 (* ---- statement pins ---- *)
-Check (C12_abort_prevents : forall ls1 ls2 t0 i,
-  let s1 := run ls1 (init t0) in
+Check (C12_abort_prevents : forall pk ls1 ls2 t0 i,
+  let s1 := run ls1 (init t0 pk) in
   (i < length (timers s1))%nat ->
   let s2 := step s1 (Abort i) in
   let s3 := run ls2 s2 in
@@ -155,14 +156,14 @@ Check (C12_abort_prevents : forall ls1 ls2 t0 i,
   /\ effs_of i (effs s3) = effs_of i (effs s1)
   /\ (forall tm, nth_error (timers s1) i = Some tm -> finished (k_pc tm) = false ->
         exists tm', nth_error (timers s3) i = Some tm' /\ k_pc tm' = PAborted)).
-Check (C12_interval_ends : forall ls t0 i tm tl,
-  let s := run ls (init t0) in
+Check (C12_interval_ends : forall pk ls t0 i tm tl,
+  let s := run ls (init t0 pk) in
   nth_error (timers s) i = Some tm -> k_kind tm = KInterval ->
   g_left (tgt s) = Some tl -> timer_enabled (now s) tm = false ->
   ceil_ms (k_t0 tm) <= now s -> tl + ceil_ms (k_dur tm) <= now s ->
   finished (k_pc tm) = true).
-Check (C12_exit_kill_after : forall ls t0 r i t,
-  let s := run ls (init t0) in
+Check (C12_exit_kill_after : forall pk ls t0 r i t,
+  let s := run ls (init t0 pk) in
   g_exit (tgt s) = Some (r, Some i, t) ->
   exists tm, nth_error (timers s) i = Some tm
     /\ k_born tm + k_dur tm <= t
@@ -173,39 +174,46 @@ Check (C12_exit_kill_after : forall ls t0 r i t,
 Definition ex_ls : list label :=
   [Mk KInterval ms; Poll 0; Poll 0; Poll 0; Advance ms; Poll 0; Poll 0; TgtPoll;
    Advance ms; Poll 0; TgtPoll].
-Example ex_prompt : prompt ex_ls (init 0).
+Example ex_prompt : prompt ex_ls (init 0 false).
 Proof. simpl. repeat split; auto; right; vm_compute; reflexivity. Qed.
-Example ex_effs : effs (run ex_ls (init 0))
+Example ex_effs : effs (run ex_ls (init 0 false))
   = [mkEff 0 (ESent 1) 1000000; mkEff 0 (ESent 2) 2000000]
-  /\ g_log (tgt (run ex_ls (init 0))) = [(0%nat, 1, 1000000); (0%nat, 2, 2000000)].
+  /\ g_log (tgt (run ex_ls (init 0 false))) = [(0%nat, 1, 1000000); (0%nat, 2, 2000000)].
 Proof. split; vm_compute; reflexivity. Qed.
 (* a late schedule: the clock jumps over three deadlines, the ticks burst but none is early *)
 Example ex_burst :
-  o_log (observe [OMk KInterval ms; OAdv (3 * ms + 5)]) =
+  o_log (observe false [OMk KInterval ms; OAdv (3 * ms + 5)]) =
   [(0%nat, 1, 3000005); (0%nat, 2, 3000005); (0%nat, 3, 3000005)].
 Proof. vm_compute; reflexivity. Qed.
 (* abort at the boundary: the sleep has fired but the task has not run *)
 Example ex_abort_boundary :
-  observe [OMk KAfter ms; OAdv ms; OAbort 0] = mkObs [] [HCancelled] None []
-  /\ observe [OMk KAfter ms; OAdv ms; OSettle; OAbort 0] = mkObs [(0%nat, 1, 1000000)] [HOk] None [].
+  observe false [OMk KAfter ms; OAdv ms; OAbort 0] = mkObs [] [HCancelled] None []
+  /\ observe false [OMk KAfter ms; OAdv ms; OSettle; OAbort 0] = mkObs [(0%nat, 1, 1000000)] [HOk] None [].
 Proof. split; vm_compute; reflexivity. Qed.
 (* the target stops before expiry: Err through the handle; exit_after reason and time *)
 Example ex_dead :
-  observe [OMk KAfter (3 * ms); OMk KExit 1500000; OAdv (2 * ms); OAdv ms]
+  observe false [OMk KAfter (3 * ms); OMk KExit 1500000; OAdv (2 * ms); OAdv ms]
   = mkObs [] [HErr; HUnit] (Some (RExitAfter 1, 2000000)) [].
 Proof. vm_compute; reflexivity. Qed.
 (* interval task ends one period after the exit *)
 Example ex_ends :
-  o_probes (observe [OMk KInterval ms; OAdv ms; OKill; OProbe; OAdv ms; OProbe])
+  o_probes (observe false [OMk KInterval ms; OAdv ms; OKill; OProbe; OAdv ms; OProbe])
   = [(1000000, true, [false]); (2000000, true, [true])].
 Proof. vm_compute; reflexivity. Qed.
+(* a target parked in pre_start (Starting) is active and accepts: the interval keeps ticking, the
+   messages are handled when pre_start returns *)
+Example ex_starting :
+  observe true [OMk KInterval ms; OMk KAfter ms; OAdv ms; OAdv ms; OProbe; OOpen]
+  = mkObs [(0%nat, 1, 2000000); (1%nat, 1, 2000000); (0%nat, 2, 2000000)] [HPending; HOk] None
+          [(2000000, false, [false; true])].
+Proof. vm_compute; reflexivity. Qed.
 Example ex_oracle :
-  check_C12 [OMk KInterval ms; OAdv ms; OKill; OProbe; OAdv ms; OProbe]
-            (observe [OMk KInterval ms; OAdv ms; OKill; OProbe; OAdv ms; OProbe]) = true
-  /\ check_C12 [OMk KAfter ms; OAdv ms] (mkObs [(0%nat, 1, 999999)] [HOk] None []) = false
-  /\ check_C12 [OMk KAfter ms; OAdv ms] (mkObs [(0%nat, 1, 1000000); (0%nat, 1, 1000000)] [HOk] None []) = false
-  /\ check_C12 [OMk KExit (2 * ms); OAdv ms] (mkObs [] [HUnit] (Some (RExitAfter 2, 1000000)) []) = false
-  /\ check_C12 [OMk KExit (2 * ms); OAdv (2 * ms)] (mkObs [] [HUnit] (Some (RExitAfter 3, 2000000)) []) = false.
+  check_C12 false [OMk KInterval ms; OAdv ms; OKill; OProbe; OAdv ms; OProbe]
+            (observe false [OMk KInterval ms; OAdv ms; OKill; OProbe; OAdv ms; OProbe]) = true
+  /\ check_C12 false [OMk KAfter ms; OAdv ms] (mkObs [(0%nat, 1, 999999)] [HOk] None []) = false
+  /\ check_C12 false [OMk KAfter ms; OAdv ms] (mkObs [(0%nat, 1, 1000000); (0%nat, 1, 1000000)] [HOk] None []) = false
+  /\ check_C12 false [OMk KExit (2 * ms); OAdv ms] (mkObs [] [HUnit] (Some (RExitAfter 2, 1000000)) []) = false
+  /\ check_C12 false [OMk KExit (2 * ms); OAdv (2 * ms)] (mkObs [] [HUnit] (Some (RExitAfter 3, 2000000)) []) = false.
 Proof. repeat split; vm_compute; reflexivity. Qed.
 
 Print Assumptions C12_after_once_not_early.
